@@ -20,3 +20,24 @@ Print Assumptions C06_fp. Print Assumptions C06_lfp. Print Assumptions C06_gfp.
 (** the iterator on a concrete monotone transformer: X := x0 | (x1 & X) from F stabilises at x0 after one step *)
 Example C06_instance : fp_f 5 F (fun x => bor (bvar 0) (band (bvar 1) x)) = Some (bvar 0).
 Proof. vm_compute. reflexivity. Qed.
+
+(** a syntactic criterion for "monotone in X": every free occurrence of X in the (fixed-point-free) body has
+    positive polarity - under and / or / if-branches / quantifiers / at-least counting / an even number of
+    negations, never under xor / iff / an if-condition / exactly-counting.  For every such body evaluation of
+    lfp X # T / gfp X # T terminates, at a fixed point below every pre-fixed point / above every post-fixed point. *)
+From Coq Require Import NArith.
+From Rsbdd Require Import Lang.Mono.
+Theorem C06_lfp_positive X T : nofsub T -> nofix T -> pos X true T = true ->
+  exists n r, eval_f n (FFix X false T) = Some r /\ robdd r /\ Den (bind empty X (bden r)) T (bden r) /\
+    forall d e, Den (bind empty X d) T e -> dle e d -> dle (bden r) d.
+Proof. exact (C06_lfp_syntactic X T). Qed.
+Theorem C06_gfp_positive X T : nofsub T -> nofix T -> pos X true T = true ->
+  exists n r, eval_f n (FFix X true T) = Some r /\ robdd r /\ Den (bind empty X (bden r)) T (bden r) /\
+    forall d e, Den (bind empty X d) T e -> dle d e -> dle d (bden r).
+Proof. exact (C06_gfp_syntactic X T). Qed.
+(** the criterion is met by, e.g., the reachability body  a | (b & exists a # X) | [X, b] >= 2  and refuses  X ^ a *)
+Example C06_positive_instance :
+  pos 9 true (FBin BOr (FVar 0) (FBin BOr (FBin BAnd (FVar 1) (FQuant QExists (0 :: nil) (FVar 9)))
+                                          (FCountC AtLeast (FVar 9 :: FVar 1 :: nil) 2%N))) = true /\
+  pos 9 true (FBin BXor (FVar 9) (FVar 0)) = false.
+Proof. split; reflexivity. Qed.
